@@ -264,6 +264,15 @@ impl<C: Config, Q: Query> Snapshot<C, Q> {
             return CalleeCheckDecision::NoNeed;
         }
 
+        // A callee that was read while it was on a dependency cycle (the read
+        // returned `CyclicError`) stays in the forward edge order, but nothing
+        // was observed about it: there is no fingerprint to compare against,
+        // so the caller has to be recomputed.
+        let Some(observation) = forward_edge_observation.0.get(callee).copied()
+        else {
+            return CalleeCheckDecision::Recompute;
+        };
+
         let kind = engine.get_query_kind(callee).await;
 
         // NOTE: if the callee is an input (explicitly set), it's impossible
@@ -306,11 +315,7 @@ impl<C: Config, Q: Query> Snapshot<C, Q> {
                 unsafe { engine.get_node_info_unchecked(callee).await };
 
             let value_fingerprint_diff = callee_node_info.value_fingerprint()
-                != forward_edge_observation
-                    .0
-                    .get(callee)
-                    .unwrap()
-                    .seen_value_fingerprint;
+                != observation.seen_value_fingerprint;
 
             // if any of the callee's value fingerprint differs, we need to
             // recompute
@@ -322,11 +327,7 @@ impl<C: Config, Q: Query> Snapshot<C, Q> {
             if !kind.is_firewall() {
                 let tfc_fingerprint_diff = callee_node_info
                     .transitive_firewall_callees_fingerprint()
-                    != forward_edge_observation
-                        .0
-                        .get(callee)
-                        .unwrap()
-                        .seen_transitive_firewall_callees_fingerprint;
+                    != observation.seen_transitive_firewall_callees_fingerprint;
 
                 if tfc_fingerprint_diff {
                     repair_transitive_firewall_callees = true;
